@@ -130,7 +130,7 @@ def fonts():
           "Widths": widths, "FontDescriptor": fd, "Encoding": Name("WinAnsiEncoding")}
     fd2 = dict(fd, FontName=Name("FontTwo"))
     cid = {"Type": Name("Font"), "Subtype": Name("CIDFontType2"), "BaseFont": Name("FontTwo"),
-           "CIDSystemInfo": {"Registry": "Adobe", "Ordering": "Identity", "Supplement": 0}, "DW": 1000, "W": [32, [0]], "FontDescriptor": fd2}
+           "CIDSystemInfo": {"Registry": "Adobe", "Ordering": "Identity", "Supplement": 0}, "DW": 1000, "W": [32, [0], 65, 65, 300], "FontDescriptor": fd2}
     f2 = {"Type": Name("Font"), "Subtype": Name("Type0"), "BaseFont": Name("FontTwo"), "Encoding": Name("Identity-H"),
           "DescendantFonts": [cid]}
     w1b = list(widths)
@@ -174,14 +174,16 @@ def build_doc(progs, forms, mediabox=(0, 0, 612, 792), split=None, numstyle=None
         icc[n] = Ref(nxt)
         nxt += 1
     fn = {"FunctionType": 2, "Domain": [0, 1], "C0": [0, 0, 0], "C1": [1, 0, 0], "N": 1}
+    objs[nxt] = [Name("Cyan"), Name("Spot1")]
     # (a three-component space comes first: the default colour space must not depend on what the resources list)
     cs = {"CsI3": [Name("ICCBased"), icc[3]], "CsI1": [Name("ICCBased"), icc[1]], "CsI4": [Name("ICCBased"), icc[4]],
           "CsBad": [Name("ICCBased"), icc[None]],
-          "CsN2": [Name("DeviceN"), [Name("Cyan"), Name("Spot1")], Name("DeviceRGB"), fn],
+          "CsN2": [Name("DeviceN"), Ref(nxt), Name("DeviceRGB"), fn],       # (the colorant names as an indirect array)
           "CsN3": [Name("DeviceN"), [Name("A"), Name("B"), Name("C")], Name("DeviceRGB"), fn],
           "CsSep": [Name("Separation"), Name("Spot"), Name("DeviceCMYK"), dict(fn, C0=[0, 0, 0, 0], C1=[0, 0, 0, 1])],
           "CsIdx": [Name("Indexed"), Name("DeviceRGB"), 1, HexStr(b"\x00\x00\x00\xff\xff\xff")],
           "CsLab": [Name("Lab"), {"WhitePoint": [1, 1, 1]}]}
+    nxt += 1
     res = {"Font": fres, "XObject": xo, "ColorSpace": cs}
     kids = []
     for i, p in enumerate(progs):
